@@ -3,6 +3,7 @@ C18 — server discovery yields each wanted server exactly once.
 -/
 import DtailModel.Lemmas.Discovery
 import DtailModel.Lemmas.GenDiscovery
+set_option autoImplicit false
 namespace Dtail.C18
 open Dtail
 variable {α : Type} [DecidableEq α]
